@@ -346,13 +346,13 @@ type SpecDB struct {
 	Distinct   []*DistinctCheck
 	RecvOnly   []*RecvOnlyCheck
 	MethodSets []*MethodSetCheck
-	Contracts map[string]*Contract
-	Funcs     map[string]*SpecFunc
-	Records   map[string]*Record
-	Models    map[string]*ModelField // key Owner+"."+Name
-	Preds     map[string]*Pred
-	Axioms    []*Clause
-	Files     []string
+	Contracts  map[string]*Contract
+	Funcs      map[string]*SpecFunc
+	Records    map[string]*Record
+	Models     map[string]*ModelField // key Owner+"."+Name
+	Preds      map[string]*Pred
+	Axioms     []*Clause
+	Files      []string
 }
 
 func NewSpecDB() *SpecDB {
